@@ -72,4 +72,5 @@ def witnesses():
     out = P.fmt("x \x00AC0\x00 `c` y\n", plaintext=True, width=88)
     return {"C04-plaintext-nul": out.count("`c`") != 1,
             "C04-link-title-space-runs": '"T  w"' not in P.fmt('a [w](http://x.y/t "T  w") b\n', width=88),
-            "C04-www-autolink-gains-scheme": "http://www.example.com" in P.fmt("see www.example.com now\n", width=88)}
+            "C04-www-autolink-gains-scheme": "http://www.example.com" in P.fmt("see www.example.com now\n", width=88),
+            "C04-footnote-label-lowercased": "[^note]" in P.fmt("Text[^Note].\n\n[^Note]: The note.\n", width=88)}
